@@ -291,7 +291,9 @@ class PrintRecorder:
 # --------------------------------------------------------------------------------------
 # Engine façade
 # --------------------------------------------------------------------------------------
-RLIMIT_DEFAULT = 30_000_000
+RLIMIT_DEFAULT = 5_000_000        # per library-level check
+RLIMIT_SUB = 1_000_000            # per steering sub-check
+RLIMIT_RUN_BUDGET = 30_000_000    # per run, all checks together (deterministic hang guard)
 STEP_CAP_DEFAULT = 400
 
 
@@ -327,10 +329,13 @@ class SimSolver:
         self.n_checks = 0
         self.owner = env.current_client
         env.solvers.append(self)
-        try:
-            self._real.set("rlimit", env.rlimit)
-        except Exception:  # pragma: no cover
-            pass
+        if kind == "optimize":
+            # z3.Optimize does not always honour rlimit (non-linear objectives): last-resort
+            # real timeout; when it fires the run is flagged (excluded from digest re-checks)
+            try:
+                self._real.set("timeout", 20000)
+            except _z3.Z3Exception:  # pragma: no cover
+                pass
         env.trace("solver_new", kind=kind, logic=logic)
 
     # -- plain forwards -----------------------------------------------------------------
@@ -405,6 +410,34 @@ class SimSolver:
         self._env.trace("passthrough", name=name)
         return getattr(self._real, name)
 
+    def _budgeted(self, real, limit, *assumptions):
+        """one real engine check under the per-check and per-run deterministic resource
+        limits; returns z3.unknown without consulting the engine once the run budget is spent."""
+        env = self._env
+        left = env.rl_budget - env.rl_used
+        if left <= 0:
+            env.budget_exhausted += 1
+            return _z3.unknown
+        try:
+            real.set("rlimit", int(min(limit, left)))
+        except _z3.Z3Exception:  # pragma: no cover
+            pass
+        r = real.check(*assumptions)
+        try:
+            st = real.statistics()
+            now = None
+            for key in st.keys():
+                if key == "rlimit count":
+                    now = st.get_key_value(key)
+                    break
+            if now is not None:
+                if env.rl_last is not None and now >= env.rl_last:
+                    env.rl_used += now - env.rl_last
+                env.rl_last = now
+        except _z3.Z3Exception:  # pragma: no cover
+            pass
+        return r
+
     # -- the interesting one --------------------------------------------------------------
     def check(self, *assumptions):
         env = self._env
@@ -440,13 +473,13 @@ class SimSolver:
         live_objectives = self._kind == "optimize" and self._objectives
         r = None
         self._steer_ok = False
-        if steer is not None and not live_objectives and not assumptions:
+        if steer is not None and not live_objectives and not assumptions and not env.steering_off:
             r = self._steered_check(steer, ev)
         if r is None:
-            r = self._real.check(*assumptions)
+            r = self._budgeted(self._real, env.rlimit, *assumptions)
             if r == _z3.sat:
                 self._handed = self._real.model()
-                if steer is not None and live_objectives:
+                if steer is not None and live_objectives and not env.steering_off:
                     self._alt_optimal(steer, ev)
             else:
                 self._handed = None
@@ -454,6 +487,11 @@ class SimSolver:
             self._last_verdict = "real-unknown"
             env.fault_fired("engine-gave-up")
             env.inconclusive += 1
+            try:
+                if self._kind == "optimize" and "timeout" in str(self._real.reason_unknown()):
+                    env.real_timeout_guard += 1
+            except _z3.Z3Exception:  # pragma: no cover
+                pass
         else:
             self._last_verdict = str(r)
         ev["verdict"] = str(r)
@@ -497,9 +535,11 @@ class SimSolver:
             real.push()
             try:
                 real.add(*exprs)
-                r = real.check()
+                r = self._budgeted(real, RLIMIT_SUB)
                 if r == _z3.sat:
                     self._handed = real.model()
+                elif r == _z3.unknown:
+                    env.steering_off = True  # hard instance: stop steering for this run
             finally:
                 real.pop()
             if r == _z3.sat:
@@ -544,12 +584,15 @@ class SimSolver:
                             continue
                     real.push(); pushed += 1
                     real.add(*exprs)
-                    r = real.check()
+                    r = self._budgeted(real, RLIMIT_SUB)
                     if r == _z3.sat:
                         model = real.model()
                         stuck[name] = value
                     else:
                         real.pop(); pushed -= 1
+                        if r == _z3.unknown:
+                            env.steering_off = True  # hard instance: stop steering for this run
+                            break
             finally:
                 if pushed:
                     real.pop(pushed)
@@ -572,7 +615,6 @@ class SimSolver:
             return
         try:
             shadow = _z3.Solver()
-            shadow.set("rlimit", env.rlimit)
             shadow.add(self._real.assertions())
             if self._tracked:
                 shadow.add(*self._tracked)  # tracked assertions are implications guarded by these
@@ -682,6 +724,12 @@ class Env:
         self.last_models = []
         self.resolved_steers = []
         self.trace_level = 1
+        self.rl_budget = RLIMIT_RUN_BUDGET
+        self.rl_used = 0
+        self.rl_last = None
+        self.budget_exhausted = 0
+        self.steering_off = False
+        self.real_timeout_guard = 0
 
     # tracing ---------------------------------------------------------------------------
     def trace(self, what, **kw):
